@@ -43,7 +43,10 @@ impl<'a> G<'a> {
     fn price(&mut self, bid: bool, passive: bool) -> u32 {
         // `depth` ticks on each side of the centre: deep enough in the layout scripts to populate all 10 published levels
         let k = self.r.range(0, self.depth as u64) as u32;
-        let p = if passive == bid { self.centre - 1 - k } else { self.centre + 1 + k };
+        // clamped to the valid limit prices: books hugging the bottom (lowest grid price = one tick) or the top of the
+        // price range occur when the centre lies within `depth` ticks of an end
+        let top = (PMAX - 1) / self.tick;
+        let p = if passive == bid { (self.centre as i64 - 1 - k as i64).max(1) as u32 } else { (self.centre as u64 + 1 + k as u64).min(top as u64) as u32 };
         p * self.tick
     }
     fn vol(&mut self, bid: bool) -> u32 {
@@ -374,7 +377,12 @@ fn env_script(r: &mut SimRng) -> Vec<PyCall> {
 
 fn layout_script(r: &mut SimRng) -> Vec<PyCall> {
     let tick = r.range(1, 10) as u32;
-    let centre = r.range(30, 100_000) as u32;
+    // (a sixth of the layouts hug an end of the price range: touch within a few ticks of the lowest / highest grid price)
+    let centre = match r.below(12) {
+        0 => r.range(2, 12) as u32,
+        1 => (PMAX - 1) / tick - r.range(1, 12) as u32,
+        _ => r.range(30, 100_000) as u32,
+    };
     let seed = r.next();
     let step = 1000u64;
     let mut g = G { r, m: Model::new(0, tick, true, Tie::Fifo), tick, centre, calls: vec![], snaps: 0, depth: 13 };
